@@ -18,7 +18,7 @@ accepts (see the file's header) is NOT emitted: this module then no longer build
 The theorems below pin the extracted lists to the stage order in which the modules `FactsAgree/TransProcessAll*.lean` compose the
 translated processors (`Pipeline.Sys` instances `balanceSys`, `transcodeSys`, `returnsSys`, `weightsSys`, and the one-stage runs of
 `check` / `print`).  Those modules took the order from the source BY HAND; with this module a reordering, a new, a dropped or a
-conditional processor, or a changed argument (e.g. a second valuation variable) in a command file breaks a `rfl` here.
+conditional processor, or a changed argument (e.g. a second valuation variable) in a command file breaks a `decide` here.
 All processors of all commands are unconditional.
 
 The theorems are spread over one module per command family so that a change in one command file breaks only the properties that are
@@ -33,10 +33,10 @@ open Knut.Generated.ProcOrder
 (the stages are those of `transcode` followed by `Filter` and a query); pinned so that the C19 streams over the pipeline commands
 and a future composition start from a checked order. -/
 theorem registerOrder_eq : registerOrder =
-    ["journal.Sort", "journal.ComputePrices", "check.Check", "journal.Valuate", "journal.Filter", "journal.Query.Into"] := rfl
+    ["journal.Sort", "journal.ComputePrices", "check.Check", "journal.Valuate", "journal.Filter", "journal.Query.Into"] := by decide
 
 theorem registerCalls_eq : registerCalls =
     [("journal.Sort", []), ("journal.ComputePrices", ["valuation"]), ("check.Check", []), ("journal.Valuate", ["reg", "valuation"]),
-     ("journal.Filter", ["partition"]), ("journal.Query.Into", ["rep"])] := rfl
+     ("journal.Filter", ["partition"]), ("journal.Query.Into", ["rep"])] := by decide
 
 end Knut.FactsAgree.ProcOrder
